@@ -50,6 +50,9 @@ structure WState where
   afterDeadOp : Bool := false  -- between a mutating storage access through a dead handle and the next mutating op
   -- stand-alone C01 check: every handle returned by a creation of this case, pairwise distinct
   c01Seen : Std.HashSet (Nat × Int) := {}
+  /-- a destructor panic has been injected in this case: the event replay goes on (an entity purge writes `Removed` before
+      it destroys the component, so the events still reproduce the membership) and its verdicts are C19 verdicts too -/
+  faultSeen : Bool := false
   /-- a top-level line of this case carried ledger information (`! d …`): the harness runs in ledger mode -/
   lgSeen : Bool := false
   /-- `lazy_flag` actions queued / expected to have run (every top-level `maintain` that returns (`=> acts …`) has run the whole queue) -/
@@ -185,7 +188,7 @@ def worldLine (st : WState) (line : String) : WState × List String :=
   | ["case", id] =>
     let (st, outs) := st.closeCase
     ({ st with caseHash := 7, caseNontrivial := false, caseId := id, lineNo := 0, model := {},
-               diverged := false, pending := [], mon := {}, monDead := false, lgHeld := [], lgDeferred := [], lgDead := false, evMember := {}, evMask := {}, evOff := [], evDead := false, afterPurge := false, afterDeadOp := false, c01Seen := {}, c01Dead := false, c05Alive := none, c05Dead := false, flagQ := 0, flagRan := 0, lgSeen := false, afterMaint := false, afterRjoin := false, pendingFault := none, leaked := st.leaked + st.mon.leaked, cases := st.cases + 1 }, outs)
+               diverged := false, pending := [], mon := {}, monDead := false, lgHeld := [], lgDeferred := [], lgDead := false, evMember := {}, evMask := {}, evOff := [], evDead := false, afterPurge := false, afterDeadOp := false, c01Seen := {}, c01Dead := false, c05Alive := none, c05Dead := false, flagQ := 0, flagRan := 0, lgSeen := false, faultSeen := false, afterMaint := false, afterRjoin := false, pendingFault := none, leaked := st.leaked + st.mon.leaked, cases := st.cases + 1 }, outs)
   | lt =>
     let (r, ledger) := splitLedger r0
     let st := { st with lineNo := st.lineNo + 1, lines := st.lines + 1,
@@ -227,6 +230,14 @@ def worldLine (st : WState) (line : String) : WState × List String :=
          | _ => (["entry_or", k, h, v, "0"], r, []))
       | _ => (lt, r, [])
     let st := if drainOut.isEmpty then st else { st with mons := st.mons + 1 }
+    -- `<id>:!retargeted` (harness oracle inside a restricted join): after a successful `get_other_mut` the item no longer
+    -- read its own component
+    let (r, drainOut) : String × List String :=
+      let ts := toks r
+      let bad := ts.filter (·.endsWith ":!retargeted")
+      if bad.isEmpty then (r, drainOut) else
+        (" ".intercalate (ts.filter (fun t => !t.endsWith ":!retargeted")),
+         drainOut ++ [s!"MON C13 case={st.caseId} line={st.lineNo} C13 after a look-up of another entity through a restricted item, the item does not read its own component any more ({bad}) op=[{" ".intercalate lt}] impl=[{r}]"])
     let l := " ".intercalate lt
     -- zero-sized component values are counted by the harness (they are indistinguishable): a mismatch reported with
     -- `drop_world` is a C08 verdict of its own; the remaining tokens are the ordinary result
@@ -244,7 +255,7 @@ def worldLine (st : WState) (line : String) : WState × List String :=
     match lt, toks r with
     | ["fault", n], _ =>
       (match n.toNat? with
-       | some n => ({ st with pendingFault := some n, faults := st.faults + 1, caseNontrivial := true, lgDead := true, evDead := true,
+       | some n => ({ st with pendingFault := some n, faults := st.faults + 1, caseNontrivial := true, lgDead := true, faultSeen := true,
                               mon := { st.mon with fault := some n } }, [])
        | none => (st, [s!"BAD case={st.caseId} line={st.lineNo} unparsable fault line"]))
     | ["dump"], rts =>
@@ -481,7 +492,10 @@ def worldLine (st : WState) (line : String) : WState × List String :=
                 if sortNats mem == sortNats ids then (st, [])
                 else
                   ({ st with evDead := true, mons := st.mons + 1 },
-                   [s!"MON C12 case={st.caseId} line={st.lineNo} C12 replaying the insertion and removal events gives membership {sortNats mem} but the storage reports {sortNats ids} op=[{l}] impl=[{r}]"])
+                   [s!"MON C12 case={st.caseId} line={st.lineNo} C12 replaying the insertion and removal events gives membership {sortNats mem} but the storage reports {sortNats ids} op=[{l}] impl=[{r}]"] ++
+                   (if st.faultSeen then
+                     [s!"MON C19 case={st.caseId} line={st.lineNo} C19 after a caught destructor panic the events of a tracked storage no longer reproduce its membership: replay gives {sortNats mem}, the storage reports {sortNats ids} op=[{l}] impl=[{r}]"]
+                    else []))
           | _, _ => (st, [])
         -- 5. stand-alone handle uniqueness (C01): independent of the timeline monitor, which stops at its first rejection
         let (st, out5) :=
